@@ -430,7 +430,7 @@ func c18WordPrograms(w string) [][]*c18N {
 
 func c18StringBodies() []string {
 	s := []string{"", "plain", " ", "@", ":", "$", ">", "+", "%", "<", "?", "~", "*", "!", "&", "=", "@ GET /x { > 1 }", "$ x = 1", "> x", "#", "# not a comment", "//", "a // b", "http://h/p",
-		"{", "}", "[", "]", "(", ")", "{ [ (", "} ] )", "let x", "route", "return", "type: 1", "a\\nb", "a\\tb", "a\\rb", "q\\\"q", "q\\'q", "b\\\\", "\\\\\\\"", "n\\0z", "\\a", "\\b", "\\f", "\\v", "\\x41", "\\x7e!", "\\u00e9", "\\u4e16x",
+		"{", "}", "[", "]", "(", ")", "{ [ (", "} ] )", "let x", "route", "return", "type: 1", "a\\nb", "a\\tb", "a\\rb", "q\\\"q", "q\\'q", "b\\\\", "\\\\\\\"", "n\\0z", "\\a", "\\b", "\\f", "\\v", "\\x41", "\\x7e!", "\\x80", "caf\\xe9", "\\xff\\x00z", "\\u00e9", "\\u0080", "\\u4e16x",
 		"é", "日本", "tab\there", "'", "it's", "--flag", "x--1", "100%", "a,b", "a;b", "\\\\", "\ufeff", "a\ufeffb"}
 	return s
 }
